@@ -349,12 +349,12 @@ func C10(c *core.Ctx) {
 		bad := false
 		var where token.Pos
 		for _, b := range fn.Blocks {
-			if b == hdr || !hdr.Dominates(b) || !reachesBlock(b, hdr) {
+			if b == hdr || !inNaturalLoop(b, hdr) {
 				continue
 			}
 			// b is inside the loop: every successor stays in the loop or is the header
 			for _, s := range b.Succs {
-				if !hdr.Dominates(s) || (!reachesBlock(s, hdr) && s != hdr) {
+				if !inNaturalLoop(s, hdr) {
 					bad, where = true, b.Instrs[len(b.Instrs)-1].Pos()
 				}
 			}
